@@ -71,3 +71,30 @@ Proof.
   destruct (inherit (Some match above with Some a => a | None => one end) row) as [t'| | |]; try discriminate Hin.
   injection Hin as <-. eexists; eexists; split; reflexivity.
 Qed.
+
+(* the tallied, aggregated vote array sums to the iteration count over the distinct reference types: every
+   iteration casts exactly one vote, so the listed probabilities add up to exactly 1 when every type is listed *)
+From CTM Require Import Model.Vote Proofs.VoteP.
+
+Lemma in_range_Forall n its :
+  iters_in_range n its = true -> Forall (fun w => (w < n)%nat) (map fst its).
+Proof.
+  unfold iters_in_range. induction its as [|it its IH]; intros H; cbn [map]; [constructor|].
+  cbn [forallb] in H. apply andb_prop in H. destruct H as [H1 H2].
+  constructor; [now apply Nat.ltb_lt | now apply IH].
+Qed.
+
+Lemma tallied_votes_total owners its :
+  iters_in_range (length owners) its = true ->
+  fold_right Z.add 0 (map (fun t => sum_where owners (fst (tally_corr (length owners) its)) t) (zdistinct owners))
+  = Z.of_nat (length its).
+Proof.
+  intros Hr.
+  assert (Ht := votes_total owners (map fst its) (in_range_Forall _ _ Hr)).
+  rewrite map_length in Ht.
+  transitivity (Z.of_nat (nsum (map (votes_for owners (map fst its)) (zdistinct owners)))); [|now rewrite Ht].
+  clear Ht.
+  induction (zdistinct owners) as [|t ts IH]; [reflexivity|].
+  cbn [map fold_right]. rewrite IH. rewrite (tally_refines_votes_for owners its t Hr).
+  unfold nsum. cbn [map fold_right]. lia.
+Qed.
